@@ -74,6 +74,7 @@ def main():
     def operand(o, fmt=None):
         if "coo" in o:
             x = coo(o["coo"])
+            fmt = o.get("format", fmt)      # an operand may name its own format (a 1-d GCXS has no compressed axes)
             return x if fmt is None else as_fmt(x, fmt)
         if "scalar" in o:
             return o["scalar"]
@@ -165,6 +166,22 @@ def main():
             if c.get("where") == "sparse":
                 return lambda: getattr(sparse, c["name"])(x, *args, **kw)
             return lambda: getattr(x, c["name"])(*args, **kw)
+        if op == "fn":
+            # a function of the namespace on one array or a list of arrays: {"name", "xs": [coo…], "as_list": bool, "args": […], "kwargs": {…}};
+            # {"array": […]} in args is an integer ndarray; a 0-d sparse result is reported as its scalar
+            xs = [as_fmt(coo(j), fmt) for j in c["xs"]]
+            args = [np.asarray(a["array"], dtype=np.int64) if isinstance(a, dict) and "array" in a else (tuple(a) if isinstance(a, list) else a)
+                    for a in c.get("args", [])]
+            kw = {k: (tuple(v) if isinstance(v, list) else v) for k, v in c.get("kwargs", {}).items()}
+            f = getattr(sparse, c["name"])
+            first = xs if c.get("as_list") else xs[0]
+
+            def call():
+                r = f(first, *args, **kw)
+                if isinstance(r, sparse.SparseArray) and r.ndim == 0:
+                    return r.todense()[()]
+                return r
+            return call
         if op == "product":
             a = as_fmt(coo(c["a"]), c.get("format_a"))
             b = as_fmt(coo(c["b"]), c.get("format_b"))
